@@ -41,6 +41,7 @@ func NewFunc(f func(ctx any)) func(ctx any) bool {
 		select {
 		case funcWorkCh <- fw:
 		default:
+			verifQueueFull()
 			putFuncWork(fw)
 			return false
 		}
